@@ -77,6 +77,8 @@ pub struct NodeCfg {
     pub tick_phase_ms: u64,
     /// a password configured in addition to an explicit private key (e.g. left over in a config file)
     pub extra_password: Option<String>,
+    /// a `public_key` entry (of this key) left over next to a password: the password decides identity and default trust
+    pub stale_public_key: Option<usize>,
 }
 
 impl Default for NodeCfg {
@@ -106,6 +108,7 @@ impl Default for NodeCfg {
             skew_s: 0,
             tick_phase_ms: 0,
             extra_password: None,
+            stale_public_key: None,
         }
     }
 }
@@ -473,6 +476,9 @@ impl World {
         let k = &self.keys[c.key];
         if c.use_password && k.password.is_some() {
             config.crypto.password = k.password.clone();
+            if let Some(other) = c.stale_public_key {
+                config.crypto.public_key = Some(self.keys[other].public.clone());
+            }
         } else {
             config.crypto.private_key = Some(k.private.clone());
             config.crypto.password = c.extra_password.clone();
